@@ -377,6 +377,10 @@ def scenario(draw, p=None):
         noise["hetero"] = draw(st.sampled_from([0.0, 0.5, 3.0])) if mode == "specified" else 0.0
         if mode == "specified" and draw(st.booleans()):
             noise["jitter"] = True
+        if mode in ("declared", "specified") and chance(draw, p.get("p_quiet_noise", 0.08)):
+            # declared noisy (an SD is reported under specified noise) but the values carry no noise at all: repeated
+            # evaluations agree exactly, and a constant target gives a training set without any spread
+            noise["quiet"] = True
     tgt["noise"] = noise
     noisy_declared = mode in ("declared", "specified")
 
